@@ -10,14 +10,14 @@ FACTS_FOR = {
     "C05": ["mwWriteOk", "mwSyncOk", "mwUnmapOk", "handleErrorNoLock", "errorAttributionWriteAt", "errorAttributionSync",
             "errorAttributionUnmap", "errorAttributionReadAt", "removeBackendTail", "removeReplicaTail"],
     "C06": ["fullWritePunch", "preloadPunch", "removeIndexSnapIndx", "lookupBody"],
-    "C07": ["verifyOrder", "canAdd", "addReplicaNoLockRechecks"],
+    "C07": ["verifyOrder", "verifyChainGuard", "verifySlices", "canAdd", "addReplicaNoLockRechecks"],
     "C09": ["canSignal", "electionLoop", "electionInit", "electionSkipsRebuildingRegistrant"],
     "C10": ["replicaWriteCounter", "increaseRevisionCounter", "getRevisionCounter", "guard_Replica_SetRevisionCounter", "verifyOrder"],
     "C11": ["cleanerConds", "cleanerSlices", "removeIndexShifts", "removeIndexBody", "removeIndexSnapIndx",
             "guard_Replica_PrepareRemoveDisk", "guard_Replica_RemoveDiffDisk"],
     "C12": ["createDiskDupGuard", "chainTooLong", "liveChainTooLong", "guard_Replica_RemoveDiffDisk", "guard_Replica_PrepareRemoveDisk"],
     "C13": ["snapshotRefusal", "checkpointCond", "checkpointBody", "removeReplicaTail"],
-    "C14": ["actionsGated", "checkAction", "replicaActions", "routedActions"],
+    "C14": ["actionsGated", "checkAction", "replicaActions", "routedActions", "verifyChainGuard", "verifySlices"],
     "C16": ["guard_Replica_Resize", "guard_Server_Resize"],
     "C17": ["replicaWriteModeBeforeData", "replicaActions", "routedActions", "actionsGated", "checkAction",
             "guard_Replica_RemoveDiffDisk", "guard_Replica_ReplaceDisk", "guard_Replica_PrepareRemoveDisk",
@@ -84,9 +84,18 @@ PROPS = {
     "C12": {"lean": ["JivaVerif.Properties.C12"],
             "runs": [rep("mgmt", 480, 32, 6000, 45, 6)], "modelled": FS + [
                 "modelled: one copy of the chain metadata; that the *.meta files and the in-memory tables stay equal is checked by the correspondence runs (chain, attributes, data after every request and after reopen), not proved"]},
-    "C17": {"lean": ["JivaVerif.Properties.C17"],
-            "runs": [rep("modes", 480, 32, 6000, 45, 7)], "modelled": FS + [
-                "partial (so far): the REST action table and the attach path through backend/remote are exercised by the restdiff engine when present"]},
+    "C17": {"lean": ["JivaVerif.Properties.C17", "JivaVerif.Properties.Rest"],
+            "runs": [rep("modes", 480, 32, 6000, 45, 7),
+                     {"engine": "restdiff", "profile": "replica", "salt": 32, "workers": 8,
+                      "quick": {"n": 0, "len": 0}, "thorough": {"n": 3000, "len": 0, "timeout": 3000}}],
+            "modelled": FS + ["the REST action table is regenerated from replica/rest/model.go on every run (T1) and every (state, action) pair is sent to the real router (restdiff): 404 iff the model says gated"]},
+    "C14": {"lean": ["JivaVerif.Properties.Rest"], "prefixes": ["c14_", "c17_rest_gate", "c17_error_offers_nothing"],
+            "level": "exploration",
+            "runs": [{"engine": "restdiff", "profile": "all", "salt": 31, "workers": 8,
+                      "quick": {"n": 0, "len": 0}, "thorough": {"n": 4000, "len": 0, "timeout": 3000}}],
+            "modelled": ["searched, not proved: handler panics, fatal runtime errors, deadlocks and leaked locks are looked for by sending every route x method x body class x state to the REAL routers, one request per fresh state, in child processes (a crash or hang is attributed to the request); finding nothing is not a proof",
+                         "proved: the REST action gate over the regenerated action table; the chain comparison of VerifyRebuildReplica is total (no slice out of range)",
+                         "not covered: memory exhaustion by bodies larger than 1 MiB, net/http internals, handlers reached only with real sync agents (preparerebuild file transfer)"]},
     "C15": {"lean": ["JivaVerif.Properties.C15"],
             "runs": [{"engine": "rpcdiff", "profile": "mix", "salt": 21,
                       "quick": {"n": 48, "len": 150}, "thorough": {"n": 640, "len": 3000, "timeout": 3000}}],
